@@ -42,6 +42,7 @@ from typing import Iterable
 
 import numpy as np
 import sympy as sym
+from sympy.printing.str import StrPrinter
 
 
 def numpy_to_blackbird(A, var_name):
@@ -110,7 +111,26 @@ def _value_to_blackbird(v):
     if isinstance(v, sym.Expr):
         return _expr_to_blackbird(v)
 
+    if isinstance(getattr(v, "expr", None), sym.Expr):
+        # a register transform: write its expression
+        return _expr_to_blackbird(v.expr)
+
     return "{}".format(v)
+
+
+class _BlackbirdPrinter(StrPrinter):
+    """SymPy string printer for Blackbird expressions.
+
+    In Blackbird a unary sign binds tighter than ``**`` (``-a**2`` means ``(-a)**2``), whereas
+    SymPy prints ``-(a**2)`` as ``-a**2``; a negated product that contains a power is therefore
+    written with brackets, ``-(a**2)``.
+    """
+
+    def _print_Mul(self, expr):
+        res = super()._print_Mul(expr)
+        if res.startswith("-") and "**" in res:
+            res = "-({})".format(res[1:])
+        return res
 
 
 def _expr_to_blackbird(expr):
@@ -123,7 +143,7 @@ def _expr_to_blackbird(expr):
     Returns:
         str: the expression as it would be written in a Blackbird script
     """
-    res = str(expr)
+    res = _BlackbirdPrinter().doprint(expr)
 
     # measured registers (q0, q1, ...) are not free parameters
     names = [str(p) for p in expr.free_symbols if not re.fullmatch(r"q[0-9]+", str(p))]
@@ -502,8 +522,8 @@ class BlackbirdProgram:
 
                     else:
                         # anything that doesn't need to be dealt with as a special case,
-                        # i.e., booleans, ints, floats.
-                        args.append("{}".format(v))
+                        # i.e., booleans, ints, floats, register transforms.
+                        args.append(_value_to_blackbird(v))
 
                 # loop through keyword argument
                 for k, v in op["kwargs"].items():
@@ -544,7 +564,7 @@ class BlackbirdProgram:
                         kwargs.append("{}={}".format(k, _value_to_blackbird(v)))
 
                     else:
-                        kwargs.append("{}={}".format(k, v))
+                        kwargs.append("{}={}".format(k, _value_to_blackbird(v)))
 
                 if args and kwargs:
                     arguments = "({}, {})".format(", ".join(args), ", ".join(kwargs))
